@@ -720,9 +720,16 @@ func (pf *pcFacts) capturedPinned(fn *ssa.Function, v ssa.Value) *types.Var {
 // ---------------------------------------------------------------------------------------
 // PC2c: consumers release only what the caller owns
 
-func rulePC2c(c *Ctx, r *Report) {
+func rulePC2c(c *Ctx, r *Report)   { pc2c(c, r, true) }
+func rulePC2cTx(c *Ctx, r *Report) { pc2c(c, r, false) }
+
+func pc2c(c *Ctx, r *Report, ksSide bool) {
 	const rule = "PC2c"
-	r.floor(rule, 8)
+	if ksSide {
+		r.floor(rule, 8)
+	} else {
+		r.floor(rule, 4)
+	}
 	pf := c.pcFacts()
 	if pf == nil {
 		r.undecided(rule, "proxy/server", "anchor", "-", "anchors not found")
@@ -760,6 +767,9 @@ func rulePC2c(c *Ctx, r *Report) {
 				r.ok(rule, name, "recycle@"+ord+":tx-side", c.Pos(in.Pos()), why)
 			} else {
 				r.viol(rule, name, "recycle@"+ord+":tx-side", c.Pos(in.Pos()), "the consumer can release a connection that is still pinned in txConns")
+			}
+			if !ksSide {
+				continue
 			}
 			ksOK := false
 			for _, ci := range callsIn(fn, func(cc *ssa.CallCommon) bool { return callsFunc(cc, pf.isKs) }) {
@@ -1584,7 +1594,7 @@ func ruleC18commit(c *Ctx, r *Report) {
 	}
 }
 
-func init() { register("C18", "", rulePC2c, ruleC18d); register("C22", "", ruleC18d) }
+func init() { register("C18", "", rulePC2cTx, ruleC18d); register("C22", "", ruleC18d) }
 
 // ruleC18d (MP-C18d): a keep-session connection outlives the statement that created it, so the node it is taken from
 // must not depend on that statement's read/write-split decision: in getBackendKsConn the raw source is dominated by a
